@@ -11,6 +11,7 @@ import random
 import sys
 from fractions import Fraction
 
+import guard
 from labella.scale import LinearScale
 
 INT_MAX = 2 ** 31 - 1
@@ -55,35 +56,41 @@ def units(step, lo, hi):
     return None
 
 
+def _observe_ticks(d0, d1, m, pre, rec):
+    s = LinearScale().domain([d0, d1])
+    if pre:
+        # the ticks of a scale are those of the domain it reports NOW, whatever was called before
+        for call in pre:
+            if call == "ticks":
+                list(s.ticks(m))
+            elif call == "format":
+                s.tickFormat(m)
+            elif call == "nice":
+                s.nice(m)
+            elif call == "copy":
+                s = s.copy()
+            elif call.startswith("ticks_o:"):        # ticks / formatter asked for ANOTHER count earlier
+                list(s.ticks(int(call[8:])))
+            elif call.startswith("format_o:"):
+                s.tickFormat(int(call[9:]))
+            elif call == "redomain":
+                s.domain([d0 - 1.0, d1 + 3.0])
+                s.domain([d0, d1])
+        d0, d1 = [float(x) for x in s.domain()]
+        rec["dom"] = [repr(d0), repr(d1)]
+        rec["pre"] = list(pre)
+    ticks = [float(t) for t in s.ticks(m)]
+    fmt = s.tickFormat(m)
+    labels = [fmt(t) for t in ticks]
+    return d0, d1, ticks, labels
+
+
 def ticks_record(d0, d1, m, pre=None):
     rec = {"kind": "ticks", "m": m, "err": "", "dom": [repr(d0), repr(d1)]}
     try:
-        s = LinearScale().domain([d0, d1])
-        if pre:
-            # the ticks of a scale are those of the domain it reports NOW, whatever was called before
-            for call in pre:
-                if call == "ticks":
-                    list(s.ticks(m))
-                elif call == "format":
-                    s.tickFormat(m)
-                elif call == "nice":
-                    s.nice(m)
-                elif call == "copy":
-                    s = s.copy()
-                elif call.startswith("ticks_o:"):        # ticks / formatter asked for ANOTHER count earlier
-                    list(s.ticks(int(call[8:])))
-                elif call.startswith("format_o:"):
-                    s.tickFormat(int(call[9:]))
-                elif call == "redomain":
-                    s.domain([d0 - 1.0, d1 + 3.0])
-                    s.domain([d0, d1])
-            d0, d1 = [float(x) for x in s.domain()]
-            rec["dom"] = [repr(d0), repr(d1)]
-            rec["pre"] = list(pre)
-        ticks = [float(t) for t in s.ticks(m)]
-        fmt = s.tickFormat(m)
-        labels = [fmt(t) for t in ticks]
-    except Exception as ex:
+        with guard.limit(60):
+            d0, d1, ticks, labels = _observe_ticks(d0, d1, m, pre, rec)
+    except Exception as ex:          # (includes guard.CallTimeout: a call did not return)
         rec.update({"err": type(ex).__name__, "mant": 1, "Q": 1, "lo": 0, "hi": 0, "tq": [], "n": [], "lab": [], "lq": []})
         return rec
     lo, hi = min(d0, d1), max(d0, d1)
@@ -108,7 +115,8 @@ def ticks_record(d0, d1, m, pre=None):
 
 def nice_record(d0, d1, m):
     s = LinearScale().domain([d0, d1])
-    s.nice(m)
+    with guard.limit(60):
+        s.nice(m)
     nd = [float(x) for x in s.domain()]
     t = [float(x) for x in LinearScale().domain(list(nd)).ticks(m)]
     if len(t) >= 2:
